@@ -2,6 +2,7 @@ package math
 
 import (
 	"context"
+	"math"
 
 	"github.com/MontFerret/ferret/pkg/runtime/core"
 	"github.com/MontFerret/ferret/pkg/runtime/values"
@@ -47,11 +48,37 @@ func Range(_ context.Context, args ...core.Value) (core.Value, error) {
 	start := toFloat(args[0])
 	end := toFloat(args[1])
 
-	arr := values.NewArray(int(end))
+	// a zero step never reaches the end, and neither does a negative one
+	// when counting up
+	if step == 0 || math.IsNaN(step) {
+		return values.None, core.Error(core.ErrInvalidArgument, "step must not be zero")
+	}
 
-	for i := start; i <= end; i += step {
+	// the number of elements, known up front: a step too small to change
+	// the running value would otherwise loop forever
+	count := math.Floor((end-start)/step) + 1
+
+	if math.IsNaN(count) || count > maxRangeLength {
+		return values.None, core.Error(core.ErrInvalidArgument, "range is too large")
+	}
+
+	if count < 0 {
+		count = 0
+	}
+
+	arr := values.NewArray(int(count))
+
+	// a negative step counts down: RANGE(5, 1, -1)
+	for i := start; (step > 0 && i <= end) || (step < 0 && i >= end); i += step {
+		if arr.Length() >= values.Int(count) {
+			break
+		}
+
 		arr.Push(values.NewFloat(i))
 	}
 
 	return arr, nil
 }
+
+// maxRangeLength bounds the number of elements RANGE produces.
+const maxRangeLength = 1 << 31
